@@ -283,17 +283,41 @@ def run(ck, facts):
         res = flow.struct_field_sources(ln, "BoundedLifetime", fld)
         ok = bool(res) and all({l[1] for l in leaves if l[0] == "field" and l[1] in ("longer", "shorter")} == {fld} for _, leaves in res)
         ck.expect(ok, "R3", "lower_named_lifetime/" + fld, "%s <- %s" % (fld, fld), "HIR BoundedLifetime.%s is not copied from the AST node's `%s` list" % (fld, fld), C.loc(ln))
-    hl = core.fn("hir::lifetimes::LifetimeEnv::all_longer_lifetimes")
-    c = next((x for x in C.walk(C.fn_body(hl)) if x.get("k") == "call" and (C.callee(x) or "").endswith("LifetimeTransitivityIterator::new")), None)
-    ck.expect(bool(c) and C.strip(c["a"][2]).get("v") is True, "R3", "all_longer_lifetimes/flag", "new(.., longer = true)", "all_longer_lifetimes no longer asks the transitive iterator for the longer direction", C.loc(hl))
+    # the selector value all_longer_lifetimes / all_shorter_lifetimes hand to the transitive iterator is the one under which the iterator
+    # (or the helper it delegates to) walks `.longer` / `.shorter`: a bool flag tested by `if`, or an enum matched on
     it = core.fn("<diplomat_core::hir::lifetimes::LifetimeTransitivityIterator<'env> as core::iter::traits::iterator::Iterator>::next")
-    sel = next((x for x in C.walk(C.fn_body(it)) if x.get("k") == "if" and C.strip(x["c"]).get("k") == "field" and C.strip(x["c"]).get("n") == "longer"), None)
-    oks = False
-    if sel:
-        tf = [y.get("n") for y in C.walk(sel["t"]) if y.get("k") == "field"]
-        ef = [y.get("n") for y in C.walk(sel["e"]) if y.get("k") == "field"] if sel.get("e") else []
-        oks = "longer" in tf and "shorter" in ef and "shorter" not in tf
-    ck.expect(oks, "R3", "LifetimeTransitivityIterator::next/edge-direction", "longer flag walks .longer", "the transitive iterator walks the wrong edge list for its `longer` flag", C.loc(it))
+
+    def edge_fields(n_):
+        return {y.get("n") for y in C.walk(n_) if y.get("k") == "field" and y.get("n") in ("longer", "shorter") and "BoundedLifetime" in (y.get("bty") or "BoundedLifetime")}
+    sel_map = {}
+    for b_ in C.bodies_inl(core, C.fn_body(it), depth=2):
+        for x in C.walk(b_):
+            if x.get("k") == "if" and x.get("e") is not None and C.strip(x["c"]).get("k") in ("field", "local") and len(edge_fields(x["t"])) == 1 and len(edge_fields(x["e"])) == 1:
+                sel_map.setdefault(True, set()).update(edge_fields(x["t"]))
+                sel_map.setdefault(False, set()).update(edge_fields(x["e"]))
+            if x.get("k") == "match" and all(len(edge_fields(a_["b"])) == 1 for a_ in x["arms"]) and len(x["arms"]) >= 2:
+                for a_ in x["arms"]:
+                    pv = a_["pat"]
+                    key = pv.get("v") if pv.get("k") == "variant" else (pv.get("v") if pv.get("k") == "lit" else None)
+                    if key is not None:
+                        sel_map.setdefault(key, set()).update(edge_fields(a_["b"]))
+
+    def selector_of(fn_):
+        c_ = next((x for x in C.walk(C.fn_body(fn_)) if x.get("k") == "call" and (C.callee(x) or "").endswith("LifetimeTransitivityIterator::new")), None)
+        if not c_ or len(c_["a"]) < 3:
+            return None
+        a_ = C.strip(c_["a"][2])
+        if a_.get("k") == "lit":
+            return a_.get("v")
+        if a_.get("k") == "def" and (a_.get("ctor") or a_.get("p")):
+            return (a_.get("ctor") or a_.get("p")).split("::")[-1]
+        return None
+    for nm, want in (("all_longer_lifetimes", "longer"), ("all_shorter_lifetimes", "shorter")):
+        hf = core.fn("hir::lifetimes::LifetimeEnv::" + nm)
+        sv = selector_of(hf)
+        got = sel_map.get(sv)
+        ck.expect(got == {want}, "R3", nm + "/direction", "selector %r walks .%s" % (sv, want),
+                  "%s asks the transitive iterator for selector %r, under which it walks %s (selector table %s): the closure is taken in the wrong direction" % (nm, sv, sorted(got) if got else "no edge list", {k: sorted(v) for k, v in sel_map.items()}), C.loc(hf))
 
     # ---------------- R4
     vt = core.fn("hir::type_context::TypeContext::validate_ty_in_method")
@@ -390,29 +414,49 @@ def run(ck, facts):
     if n6 < 4:
         ck.bad("R6", "floor", "only %d branded fmt_lifetime calls found (4 counted: dart and js, def and use)" % n6)
 
-    # ---------------- R3 (cont.) worklist loops of the outlives closure run until the queue is empty
+    # ---------------- R3 (cont.) worklist loops of the outlives closure run until the queue is empty (MIR): once `pop()` has produced an element,
+    # control does not reach a `None` result (or leave the loop) without asking `pop()` again
+    from common import MirFn, sym_walk
     nwl = 0
     for f in core.fn_list:
-        if "hir" not in f or "::hir::lifetimes" not in f["path"] and "::hir::methods" not in f["path"]:
+        if ("::hir::lifetimes" not in f["path"] and "::hir::methods" not in f["path"]) or not f.get("mir") or "blocks" not in f["mir"]:
             continue
-        for lp in C.walk(C.fn_body(f)):
-            if lp.get("k") != "loop":
+        m = MirFn(f)
+        pops = {bb for bb, t in m.calls() if re.search(r"::(pop|pop_front|pop_back)$", C.mir_callee(t) or "")}
+        if not pops:
+            continue
+        ret_opt = re.match(r"(core::option::)?Option<", f.get("output") or "") is not None
+        for bb, blk in m.cfg.blocks.items():
+            t = blk["term"]
+            if blk.get("cleanup") or t["k"] != "switch":
                 continue
-            blk = C.strip(lp.get("body") or lp.get("b") or (list(C.children(lp)) or [{}])[0])
-            items = (blk.get("s") or []) + ([blk["e"]] if blk.get("e") else []) if blk.get("k") == "block" else [blk]
-            top = C.strip(items[0]) if items else {}
-            if top.get("k") != "if":
+            d = m.sym_op(t["discr"])
+            if not any(x[0] == "call" and isinstance(x[1], str) and re.search(r"::(pop|pop_front|pop_back)$", x[1]) for x in sym_walk(d)):
                 continue
-            cond = C.strip(top["c"])
-            if not (cond.get("k") == "let" and any(y.get("k") == "mcall" and y.get("m") in ("pop", "pop_front", "pop_back") for y in C.walk(cond.get("init") or cond.get("e") or {}))):
-                continue
+            via_try = any(x[0] == "call" and isinstance(x[1], str) and x[1].endswith("Try>::branch") for x in sym_walk(d))
+            has_elem = 0 if via_try else 1     # ControlFlow::Continue = 0 / Option::Some = 1
+            tgt = [tb for v, tb in t["targets"] if v == has_elem] or ([t["otherwise"]] if all(v != has_elem for v, _ in t["targets"]) else [])
             nwl += 1
-            brk = [y for y in C.walk(top["t"]) if y.get("k") == "break"]
-            ck.expect(not brk, "R3", "%s/worklist-runs-until-empty" % C.norm_path(f["path"]).split("::")[-2], "no break while the queue is non-empty",
-                      "the worklist loop of %s stops (`break`) while lifetimes are still queued: the set of longer lifetimes is truncated, so a parameter that the return value may borrow from gets no edge"
-                      % C.norm_path(f["path"]).split("::", 1)[1], C.loc(f, lp.get("ln")))
+            seen, st = set(), list(tgt)
+            bad_at = None
+            while st:
+                x = st.pop()
+                if x in seen or x in pops:
+                    continue
+                seen.add(x)
+                xb = m.cfg.blocks[x]
+                for s_ in xb["stmts"]:
+                    if ret_opt and s_["k"] == "assign" and s_["lhs"]["l"] == 0 and not s_["lhs"].get("p") and s_["rv"]["k"] == "agg" and str(s_["rv"].get("variant")) in ("0", "None"):
+                        bad_at = s_.get("ln")
+                if ret_opt and xb["term"]["k"] == "call" and xb["term"]["dest"]["l"] == 0 and (C.mir_callee(xb["term"]) or "").endswith("from_residual"):
+                    bad_at = xb["term"].get("ln")
+                st += m.cfg.succ.get(x, [])
+            key = C.norm_path(f["path"]).split("::")[-2] if "::" in f["path"] else f["path"]
+            ck.expect(bad_at is None, "R3", "%s/worklist-runs-until-empty" % key, "an element popped is yielded or skipped; `None` only when pop() is exhausted",
+                      "the worklist of %s gives up (`None`) after pop() returned an element without asking pop() again: the set of longer lifetimes is truncated, so a parameter that the "
+                      "return value may borrow from gets no edge" % C.norm_path(f["path"]).split("::", 1)[1], C.loc(f, bad_at))
     if nwl < 1:
-        ck.bad("R3", "worklist-floor", "no worklist loop (`while let Some(x) = queue.pop()`) found in hir::lifetimes (1 counted: LifetimeTransitivityIterator::next)")
+        ck.bad("R3", "worklist-floor", "no pop()-driven worklist found in hir::lifetimes (1 counted: LifetimeTransitivityIterator::next)")
     # an optional slice field must be allocated in the arena of the lifetime it borrows for, like a plain slice field (rule of C15.R6 on Dart's allocator lookups)
     import c15
     c15.dart_alloc_rules(ck, "R1", facts)
